@@ -27,7 +27,7 @@ type Case struct {
 	RVals              [][]byte // their values (nil entries if no values)
 }
 
-var encNames = []string{"none", "raw", "i8", "i16", "i32", "i64", "u16", "u32", "u64", "int", "s16", "bytes3", "te7"}
+var encNames = []string{"none", "raw", "i8", "i16", "i32", "i64", "u16", "u32", "u64", "int", "s16", "bytes3", "te7", "f64"}
 
 func randFlags(r *rand.Rand) string {
 	if r.Intn(12) == 0 {
@@ -105,6 +105,28 @@ func valueOf(r *rand.Rand, enc string, run int, salt uint64) []byte {
 		return []byte{byte(x >> 56), byte(x >> 48), byte(x >> 40)}
 	case "te7":
 		return []byte{byte(x >> 56), byte(x >> 48), byte(x >> 40), byte(x >> 32), byte(x >> 24), byte(x >> 16), byte(x >> 8)}
+	case "f64":
+		// +0, -0, 1, -1, +Inf, two quiet NaNs with different payloads, and arbitrary finite doubles
+		b := make([]byte, 8)
+		switch (x >> 58) % 12 {
+		case 0, 1:
+			// +0.0
+		case 2, 3:
+			b[7] = 0x80 // -0.0
+		case 4:
+			binary.LittleEndian.PutUint64(b, 0x3ff0000000000000)
+		case 5:
+			binary.LittleEndian.PutUint64(b, 0xbff0000000000000)
+		case 6:
+			binary.LittleEndian.PutUint64(b, 0x7ff0000000000000)
+		case 7:
+			binary.LittleEndian.PutUint64(b, 0x7ff8000000000001)
+		case 8:
+			binary.LittleEndian.PutUint64(b, 0x7ff8000000000002)
+		default:
+			binary.LittleEndian.PutUint64(b, x&^(0x7ff<<52)|0x3fe<<52)
+		}
+		return b
 	}
 	panic("valueOf: " + enc)
 }
